@@ -20,7 +20,7 @@ SPEC = {
              'times at priorities above and below the transition\'s, with and without override actions; every '
              'action round, schedule_update record and current_state is compared with the independently evaluated '
              'timetable and the shadow registry; a case is one timetable + registration script; non-trivial = at '
-             'least two full cycles (or the non-cyclical end was reached) and a registration changed mid-run'),
+             'least two full cycles (or the non-cyclical end was reached) and a registration changed mid-run; also: None / \'\' / float states, chains of schedulers created during the initialisation pass (depth 1-4), refused second initialisations, integer clocks above 2**53, long histories (400 periods)'),
     'floors': {'quick': {'transitions_checked': 10000, 'action_calls_checked': 10000,
                          'midrun_registration_changes': 1000, 'noncyclical_ends_reached': 100},
                'thorough': {'transitions_checked': 300000, 'action_calls_checked': 300000,
